@@ -82,7 +82,7 @@ def run(rep, tier):
         cons = [n for n in f_.walk() if n.get("k") == "construct" and (n.get("callee") or "").endswith("CheckpointWriter::CheckpointWriter") and len(n.get("args") or []) >= 2]
         if cons:
             sites.append((f_, cons))
-    rep.floor("R17.1", sum(len(c) for _f, c in sites), 2, "constructions of a CheckpointWriter from a group")
+    rep.floor("R17.1", sum(len(c) for _f, c in sites), 1, "constructions of a CheckpointWriter from a group")
     for gw, cons in sites:
         rep.analysed(gw)
         g = CFG(gw)
